@@ -11,9 +11,10 @@
    In every proof the ENV1 side is computed and the ENV2 side is obtained from the theorem.
    c13_env_is_observable shows that the two environments are told apart as soon as a length larger than
    the buffer is passed, i.e. the equalities above are not an artefact of rd_env.
+     c13_ie_decoders_env_independent_instance{,_short}   (the element decoders handed a byte range directly)
    Skipped: c13_no_state_between_calls (no hypotheses). *)
 From Coq Require Import List.
-From LW Require Import Base.Bytes Model.TagIter Model.Radiotap Model.Frame Model.CRC Proofs.SafetyProofs
+From LW Require Import Base.Bytes Model.TagIter Model.Radiotap Model.Frame Model.CRC Model.Security Model.Mgmt Proofs.SafetyProofs
   Properties.Properties_C13.
 Import ListNotations.
 Local Open Scope Z_scope.
@@ -170,5 +171,42 @@ Proof.
   assert (W : wfbytes THREE_BYTES) by wf.
   destruct (c13_fcs_env_independent THREE_BYTES ENV1 ENV2 W) as [Hc Hv].
   rewrite <- Hc, <- Hv.
+  repeat split; vm_compute; reflexivity.
+Qed.
+
+(* ---------- c13_ie_decoders_env_independent ---------- *)
+(* an RSN body whose key-management count (2) promises more than is there: the octets behind the range differ
+   under the two environments, the refusal does not *)
+Definition RSN_OVERPROMISE : list byte := [1; 0; 0; 15; 172; 4; 1; 0; 0; 15; 172; 4; 2; 0; 0; 15; 172; 2].
+Example c13_ie_decoders_env_independent_instance :
+  ENV1 18 <> ENV2 18 /\
+  get_rsn_info (rd_env RSN_OVERPROMISE ENV1) 0 (zlen RSN_OVERPROMISE) = Done (Err (-22)) /\
+  get_rsn_info (rd_env RSN_OVERPROMISE ENV2) 0 (zlen RSN_OVERPROMISE) = Done (Err (-22)) /\
+  (* the same range without its last six octets ends behind the pairwise list and decodes *)
+  (exists i, get_rsn_info (rd_env (firstn 12 RSN_OVERPROMISE) ENV1) 0 12 = Done (Ok i) /\
+             get_rsn_info (rd_env (firstn 12 RSN_OVERPROMISE) ENV2) 0 12 = Done (Ok i) /\ r_akms i = []).
+Proof.
+  split; [vm_compute; discriminate |].
+  assert (W : wfbytes RSN_OVERPROMISE) by wf. assert (W' : wfbytes (firstn 12 RSN_OVERPROMISE)) by wf.
+  rewrite <- (proj1 (c13_ie_decoders_env_independent RSN_OVERPROMISE ENV1 ENV2 W)).
+  split; [vm_compute; reflexivity|]. split; [vm_compute; reflexivity|].
+  pose proof (proj1 (c13_ie_decoders_env_independent _ ENV1 ENV2 W')) as H.
+  change (zlen (firstn 12 RSN_OVERPROMISE)) with 12 in H. rewrite <- H.
+  eexists. split; [vm_compute; reflexivity|]. split; reflexivity.
+Qed.
+(* three octets: before the repair of F45 the decoders read six octets whatever the length, i.e. ENV octets 3..5, and
+   the Microsoft element handler the type octet at index 3 *)
+Definition THREE_OCTETS : list byte := [0; 80; 242].
+Example c13_ie_decoders_env_independent_instance_short :
+  (get_rsn_info (rd_env THREE_OCTETS ENV1) 0 (zlen THREE_OCTETS) = Done (Err (-22)) /\
+   get_rsn_info (rd_env THREE_OCTETS ENV2) 0 (zlen THREE_OCTETS) = Done (Err (-22))) /\
+  (get_wpa_info (rd_env THREE_OCTETS ENV1) 0 (zlen THREE_OCTETS) = Done (Err (-22)) /\
+   get_wpa_info (rd_env THREE_OCTETS ENV2) 0 (zlen THREE_OCTETS) = Done (Err (-22))) /\
+  (handle_msft (rd_env THREE_OCTETS ENV1) bss0 0 (zlen THREE_OCTETS) = Done (Err (-22)) /\
+   handle_msft (rd_env THREE_OCTETS ENV2) bss0 0 (zlen THREE_OCTETS) = Done (Err (-22))).
+Proof.
+  assert (W : wfbytes THREE_OCTETS) by wf.
+  destruct (c13_ie_decoders_env_independent THREE_OCTETS ENV1 ENV2 W) as [H1 [H2 H3]].
+  rewrite <- H1, <- H2, <- (H3 bss0).
   repeat split; vm_compute; reflexivity.
 Qed.
